@@ -252,7 +252,8 @@ def proof_stage(res: Result, module: str, theorems, extra_modules=()):
         res.notes["forbidden"] = bad
         return False
     # axioms audit
-    src = "import %s\n" % module + "".join(f"#print axioms {t}\n" for t in theorems)
+    src = "".join("import %s\n" % m for m in [module] + list(extra_modules)) + \
+        "".join(f"#print axioms {t}\n" for t in theorems)
     os.makedirs(WORK, exist_ok=True)
     tmp = os.path.join(WORK, f"axioms_{res.pid}.lean")
     with open(tmp, "w") as f:
